@@ -331,4 +331,12 @@ def tasks(tier):
     # type (shared with C05)
     import props.C05 as P5
     ts += [t for t in P5.tasks(tier) if t.id.startswith('trade-record.')]
+    # every cycle ends with its close: the order a terminating strategy submits is flushed at once in both simulators (shared with C16)
+    import props.C16 as P16
+    # the trade log uses the fee / leverage of THIS session: no memo or other module-level state written on the session path outside the
+    # inventory (shared with C11; the engine treats decorators such as lru_cache as transparent, so they are accounted for syntactically)
+    import props.C11 as P11
+    ts.append(Task('module-state', P11.t_module_state, extra=dict(spec_mod=P11.SPEC)))
+    for s_ in ('_step_simulator', '_skip_simulator'):
+        ts.append(Task(f'sampling.{s_}', P16.t_sampling(s_), extra=dict(spec_mod=P16.SPEC), overrides=dict(ov), invariants={}))
     return ts
